@@ -857,6 +857,48 @@ def m3_to_etree(schema: Schema, rep: Report):
     rel = p.module(BASE).relpath
     ex = Expander(fn)
     nodes = own_nodes(fn)
+    # what is returned was built in THIS call from the instance's present state: on every returning path the value
+    # goes back to an ET.Element(...) constructed on that path - never to something the instance (or the class) kept
+    # from an earlier call (a memo is stale as soon as a nested child is assigned or a list member appended)
+    from . import paths as _PTM3
+
+    try:
+        mpl = _PTM3.enumerate_paths(fn, None, ex, resolve=False)
+    except AnalysisError as e:
+        mpl = None
+        rep.note(f"M3 undecided: {e}")
+    if mpl is not None:
+        kept = None
+        nret = 0
+        for q in mpl:
+            if q.outcome != "return" or q.value is None:
+                continue
+            nret += 1
+            v = _PTM3.value_on_path(q, mpl.cfg, q.value, upto=len(q.nodes) - 1)
+            while isinstance(v, ast.Call) and (dotted(v.func) or "").split(".")[-1] in ("deepcopy", "copy", "ungroom") and len(v.args) == 1:
+                v = v.args[0]
+            def _root(e_):
+                while isinstance(e_, (ast.Attribute, ast.Subscript)):
+                    e_ = e_.value
+                return e_.id if isinstance(e_, ast.Name) else None
+
+            def _is_store_read(e_):
+                """a value READ from somewhere that outlives the call: self.x / self.__dict__[k] / <module table>[k] /
+                <such>.get(k) / getattr(self, k)"""
+                if isinstance(e_, (ast.Attribute, ast.Subscript)):
+                    r_ = _root(e_)
+                    return r_ in ("self", "cls") or (r_ is not None and p.has_binding(BASE, r_))
+                if isinstance(e_, ast.Call) and isinstance(e_.func, ast.Attribute) and e_.func.attr in ("get", "pop", "setdefault", "__getitem__"):
+                    r_ = _root(e_.func.value)
+                    return r_ in ("self", "cls") or (r_ is not None and p.has_binding(BASE, r_))
+                if isinstance(e_, ast.Call) and isinstance(e_.func, ast.Name) and e_.func.id == "getattr" and e_.args and _root(e_.args[0]) in ("self", "cls"):
+                    return True
+                return False
+
+            if _is_store_read(v):
+                kept = text(v)
+        if nret:
+            rep.check("M3", "to_etree:built-on-every-call", kept is None, f"a path returns {kept[:70] if kept else ''}: a tree kept from an earlier call - later changes to the instance (a nested child assigned, a list member appended) are not written" if kept else "", f"{rel}:{fn0.lineno}")
     roots = [n for n in nodes if isinstance(n, ast.Call) and dotted(n.func) in ("ET.Element", "Element") and n.args]
     if not roots:
         raise AnalysisError("M3: to_etree creates no root element")
